@@ -1,5 +1,6 @@
 import SamVerif.Props.C12
 import SamVerif.Model.RenderByName
+import SamVerif.Model.ModuleOrder
 /-! # C12 — diagnostics rendered in module-name order do not depend on module-reference ids
 
 Model of `ErrorSet::pretty_print_error_messages_in_module_name_order` (samlang-errors, used by
@@ -60,5 +61,127 @@ theorem diagnostics_by_name_independent_of_module_ids (names : List Nat) (ids id
 /-- the witness of C12-F1 now renders identically under both module numberings -/
 example : renderByName [0, 1] id [[e1], [e2]] =
     renderByName [0, 1] (fun n => if n = 0 then 1 else if n = 1 then 0 else n) [[e1], [e2]] := by decide
+
+/-! ## The by-name report is a *stable sort by module name* of the set sequence
+
+`errors.sort_by_cached_key(|e| name(e.module))` is a stable sort whose key is deliberately not
+unique; `renderByName` models its result as the concatenation of the per-module subsequences in name
+order.  The theorem below shows that the stable sort (`sSort`, stable insertion sort) computes
+exactly that — for every input sequence — so stability is what the report needs (an unstable sort,
+seeded fault C12d, may permute equal-key elements). Module names are represented by their rank in
+name order (`key`), names = `List.range N`. -/
+
+section StableByKey
+variable {α : Type} (key : α → Nat)
+
+def keyLt (a b : α) : Bool := decide (key a < key b)
+
+def concatByKey (N : Nat) (l : List α) : List α :=
+  (List.range N).flatMap fun m => l.filter (fun e => key e == m)
+
+theorem sIns_append_of_all_lt (x : α) (A B : List α) (hB : ∀ b ∈ B, keyLt key x b = true) :
+    sIns (keyLt key) x (A ++ B) = sIns (keyLt key) x A ++ B := by
+  induction A with
+  | nil =>
+    cases B with
+    | nil => rfl
+    | cons b bs => simp [sIns, hB b (by simp)]
+  | cons a as ih =>
+    simp only [List.cons_append, sIns]
+    split
+    · rfl
+    · rw [ih]; rfl
+
+theorem sIns_append_of_none_lt (x : α) (A B : List α) (hA : ∀ a ∈ A, keyLt key x a = false) :
+    sIns (keyLt key) x (A ++ B) = A ++ sIns (keyLt key) x B := by
+  induction A with
+  | nil => rfl
+  | cons a as ih =>
+    simp only [List.cons_append, sIns, hA a (by simp), Bool.false_eq_true, ↓reduceIte]
+    rw [ih (fun y hy => hA y (List.mem_cons_of_mem _ hy))]
+
+theorem sIns_at_end (x : α) (B : List α) (hB : ∀ b ∈ B, keyLt key x b = false) :
+    sIns (keyLt key) x B = B ++ [x] := by
+  have := sIns_append_of_none_lt key x B [] hB
+  simpa [sIns] using this
+
+theorem concatByKey_succ (N : Nat) (l : List α) :
+    concatByKey key (N + 1) l = concatByKey key N l ++ l.filter (fun e => key e == N) := by
+  simp [concatByKey, List.range_succ, List.flatMap_append]
+
+theorem concatByKey_append_ge (N : Nat) (l : List α) (x : α) (h : N ≤ key x) :
+    concatByKey key N (l ++ [x]) = concatByKey key N l := by
+  induction N with
+  | zero => simp [concatByKey]
+  | succ n ih =>
+    rw [concatByKey_succ, concatByKey_succ, ih (by omega)]
+    have : (key x == n) = false := by simp; omega
+    simp [List.filter_append, this]
+
+theorem mem_concatByKey_lt (N : Nat) (l : List α) (a : α) (h : a ∈ concatByKey key N l) : key a < N := by
+  simp only [concatByKey, List.mem_flatMap, List.mem_range, List.mem_filter, beq_iff_eq] at h
+  obtain ⟨m, hm, _, hk⟩ := h
+  omega
+
+theorem sIns_concatByKey (N : Nat) (l : List α) (x : α) (h : key x < N) :
+    sIns (keyLt key) x (concatByKey key N l) = concatByKey key N (l ++ [x]) := by
+  induction N with
+  | zero => omega
+  | succ n ih =>
+    rw [concatByKey_succ, concatByKey_succ]
+    by_cases hx : key x < n
+    · -- inserted inside the earlier blocks; the last block (key n) only has larger keys
+      rw [sIns_append_of_all_lt key x _ _ (by
+        intro b hb
+        simp only [List.mem_filter, beq_iff_eq] at hb
+        simp [keyLt]; omega)]
+      rw [ih hx]
+      have : (key x == n) = false := by simp; omega
+      simp [List.filter_append, this]
+    · have hxn : key x = n := by omega
+      rw [sIns_append_of_none_lt key x _ _ (by
+        intro a ha
+        have := mem_concatByKey_lt key n l a ha
+        simp [keyLt]; omega)]
+      rw [sIns_at_end key x _ (by
+        intro b hb
+        simp only [List.mem_filter, beq_iff_eq] at hb
+        simp [keyLt]; omega)]
+      rw [concatByKey_append_ge key n l x (by omega)]
+      simp [List.filter_append, hxn]
+
+/-- **stable_sort_is_concat_by_key**: a stable sort by a (non-unique) key returns, for every input
+sequence, the concatenation in key order of the subsequences with that key. -/
+theorem stable_sort_aux (N : Nat) (l p : List α) (h : ∀ x ∈ l, key x < N) :
+    l.foldl (fun acc x => sIns (keyLt key) x acc) (concatByKey key N p) = concatByKey key N (p ++ l) := by
+  induction l generalizing p with
+  | nil => simp
+  | cons x xs ih =>
+    simp only [List.foldl_cons]
+    rw [sIns_concatByKey key N p x (h x (by simp))]
+    rw [ih (p ++ [x]) (fun y hy => h y (List.mem_cons_of_mem _ hy))]
+    simp
+
+/-- **stable_sort_is_concat_by_key**: a stable sort by a (non-unique) key returns, for every input
+sequence, the concatenation in key order of the subsequences with that key. -/
+theorem stable_sort_is_concat_by_key (N : Nat) (l : List α) (h : ∀ x ∈ l, key x < N) :
+    sSort (keyLt key) l = concatByKey key N l := by
+  have := stable_sort_aux key N l [] h
+  have e : concatByKey key N ([] : List α) = [] := by simp [concatByKey]
+  rw [e] at this
+  simpa [sSort] using this
+
+end StableByKey
+
+/-- **report_is_concat_of_module_reports**: the report `compile_sources` renders — the set sequence
+stably sorted by module name — equals the concatenation of the per-module reports in module-name
+order (`renderByName`), whatever the numbering of the module references. -/
+theorem report_is_concat_of_module_reports (N : Nat) (ids : Nat → Nat) (pm : List (List Err))
+    (h : ∀ e ∈ render ids pm, e.modl < N) :
+    sSort (keyLt (fun e : Err => e.modl)) (render ids pm) = renderByName (List.range N) ids pm := by
+  rw [stable_sort_is_concat_by_key (fun e : Err => e.modl) N _ h]
+  rfl
+
+example : sSort (keyLt (fun e : Err => e.modl)) (render (fun n => 5 - n) [[e1], [e2]]) = [e1, e2] := by decide
 
 end SamVerif.ErrorSet
